@@ -46,7 +46,7 @@ class BatchEngine(Engine):
                                    'strict_external_runs')}
     probes = ('set_order_choice_points', 'topo_choice_points', 'graphs_compared', 'configs_with_ignore',
               'configs_with_block', 'configs_with_disable', 'configs_with_noexpand', 'external_nodes',
-              'file_graph_passes', 'reverse_passes', 'plan_passes', 'ignored_items_processed',
+              'file_graph_passes', 'file_graph_recursion_passes', 'reverse_passes', 'plan_passes', 'ignored_items_processed',
               'expected_runtime_errors', 'case_colliding_paths', 'graph_differs_from_reference',
               'ir_edits_between_passes')
     nontrivial_rule = ('a run is non-trivial if the set-order or topological-order seam had >= 1 choice point with '
@@ -66,7 +66,7 @@ class BatchEngine(Engine):
     # -- generation -------------------------------------------------------------
     def gen(self, g, prop, tier):
         proj = BG.gen_project(g, tier)
-        cfg = BG.gen_config(g, proj, tier)
+        cfg = BG.gen_config(g, proj, tier, patterns=True)
         scen = {'proj': proj, 'cfg': cfg, 'set_random': g.flip('setrnd', 4, 5), 'topo_random': g.flip('toporand', 4, 5)}
         if prop == 'C21' and len(proj['files']) >= 2 and g.flip('casecollide', 1, 12):
             # two files in one directory whose names differ only in letter case
@@ -87,6 +87,8 @@ class BatchEngine(Engine):
                     'process_ignored': g.flip('pign', 1, 3),
                     'plan': g.flip('plan', 1, 4),
                 })
+                # file-graph traversal with recursion into the modules and procedures of each file
+                scen['passes'][-1]['recurse'] = scen['passes'][-1]['file_graph'] and g.flip('recurse', 1, 2)
             if len(scen['passes']) >= 2 and g.flip('edit', 1, 3):
                 # between two passes a transformation (without creates/renames flags) removes a plain call
                 cands = [(p, i) for p, P in proj['procs'].items() for i, c in enumerate(P['calls'])
@@ -467,6 +469,10 @@ class BatchEngine(Engine):
             t.reverse_traversal = ps['reverse']
             t.traverse_file_graph = ps['file_graph']
             t.process_ignored_items = ps['process_ignored']
+            if ps.get('recurse'):
+                t.recurse_to_modules = True
+                t.recurse_to_procedures = True
+                run.probe('file_graph_recursion_passes')
             if ps['reverse']:
                 run.probe('reverse_passes')
             if ps['file_graph']:
@@ -545,8 +551,34 @@ class BatchEngine(Engine):
                         continue
                     if selected(n):
                         files.setdefault(file_of[n], set()).add(n)
-                visited = [self._relfile(r['item'], root) for r in log]
+                visited = [self._relfile(r['item'], root) for r in log if r['hook'].endswith('_file')]
                 self._exactly_once(run, tag, set(files), visited)
+                # recursion into the units of each file: only items of the graph, honouring the ignore rules,
+                # each at most once; selected procedures of a visited file exactly once
+                inner = [r for r in log if not r['hook'].endswith('_file')]
+                seen_inner = set()
+                for r in inner:
+                    n = r['item']
+                    if n is None:
+                        continue
+                    if r['ignored'] and not ps['process_ignored']:
+                        run.violate('ignored-processed', f'{tag}: {r["hook"]} applied to the ignored item {n} although '
+                                                         f'process_ignored_items is False')
+                    if r['hook'].endswith('_subroutine'):
+                        if n not in ref['nodes']:
+                            run.violate('processed-unselected', f'{tag}: {r["hook"]} applied to {n}, which is not '
+                                                                f'an item of the graph')
+                        if (r['hook'], n) in seen_inner:
+                            run.violate('processed-twice', f'{tag}: {r["hook"]} applied to {n} more than once')
+                    seen_inner.add((r['hook'], n))
+                if ps.get('recurse') and 'proc' in sel_kinds:
+                    got = {n for h, n in seen_inner if h.endswith('_subroutine')}
+                    for f, ns in files.items():
+                        if f in visited:
+                            for n in ns:
+                                if ref['nodes'][n] == 'proc' and n not in got:
+                                    run.violate('not-processed', f'{tag}: file {f} was visited with recursion into '
+                                                                 f'procedures but {n} was never processed')
                 # file order: consistent with every edge whose two end items both pass the filter
                 fsucc = {}
                 for a, b in ref['edges']:
